@@ -20,12 +20,12 @@ var mixC19 = Mix{Set: 26, Delete: 9, Get: 2, GetItem: 8, Exist: 5, MinMax: 6, To
 func init() {
 	register(&Prop{
 		ID: "C19", Level: "exploration",
-		Rule:        "the lazy-read monitor lives inside the instrumented StoreFile and judges EVERY ReadAt with the API call in progress as a tag. (1) During NewStore on a file that ends in a root record every read must lie inside that root record and there may be at most 4 of them; right after the open the hook walk must find no cached node or item in any collection; dedicated cases open files holding 10, 100 and 1000 items of 1-4 KB values and require the identical number of reads and bytes. (2) During key-only operations (GetItem/MinItem/MaxItem and all visit kinds and iterators with withValue=false, Exist, Len, Set/SetItem, Delete - on the store and through snapshots) no read may intersect the value bytes of ANY item record reachable from any root record ever completed in the file (ranges come from the independent decoder, run on every completed root record). Cases = random histories with 1-4 KB values over all cache states (fresh, partially loaded, evicted, key-only cached items) followed by a sweep of every key-only operation over every present key and absent targets; plus concurrent cases: 2-4 readers doing key-only visits / Min / Max next to a mutator and a flusher on a cold (evicted or re-opened) file under the deterministic yield-point scheduler (switches at every file call), so that two readers load the same uncached item at the same time. Non-trivial = key-only operations executed against a re-opened or evicted tree holding values; distinct = op-trace hash.",
+		Rule:        "the lazy-read monitor lives inside the instrumented StoreFile and judges EVERY ReadAt with the API call in progress as a tag. (1) During NewStore on a file that ends in a root record every read must lie inside that root record and there may be at most 4 of them; right after the open the hook walk must find no cached node or item in any collection; dedicated cases open files holding 10, 100 and 1000 items of 1-4 KB values and require the identical number of reads and bytes. (2) During key-only operations (GetItem/MinItem/MaxItem and all visit kinds and iterators with withValue=false, Exist, Len, Set/SetItem, Delete - on the store and through snapshots) no read may intersect the value bytes of ANY item record reachable from any root record ever completed in the file (ranges come from the independent decoder, run on every completed root record). Cases = random histories (a third of them under a random subset of neutral callbacks) with 1-4 KB values over all cache states (fresh, partially loaded, evicted, key-only cached items) followed by a sweep of every key-only operation over every present key and absent targets; plus concurrent cases: 2-4 readers doing key-only visits / Min / Max next to a mutator and a flusher on a cold (evicted or re-opened) file under the deterministic yield-point scheduler (switches at every file call), so that two readers load the same uncached item at the same time. Non-trivial = key-only operations executed against a re-opened or evicted tree holding values; distinct = op-trace hash.",
 		Assumptions: []string{"zero-length values have no byte range", "with-value operations are free to read values"},
 		NumCases:    func(tier string) int { return pick(tier, 400, 15000) + 12 + pick(tier, 600, 20000) },
 		Run:         runC19,
 		Floor: func(tier string, st map[string]int64) string {
-			for _, k := range []string{"c19.key-only-reads", "c19.value-ranges", "c19.opens-checked", "c19.open-size-series", "op.Reopen", "evicted", "c19.sweep-ops", "c19.concurrent-executions"} {
+			for _, k := range []string{"c19.key-only-reads", "c19.value-ranges", "c19.opens-checked", "c19.open-size-series", "op.Reopen", "evicted", "c19.sweep-ops", "c19.concurrent-executions", "c19.callback-configurations"} {
 				if st[k] == 0 {
 					return "no " + k + " observed"
 				}
@@ -46,6 +46,11 @@ func runC19(ctx *Ctx, idx int) Result {
 		return runC19Concurrent(ctx, idx, r)
 	}
 	cfg := driver.Config{TrackValues: true, Walk: true, ReadbackK: 0}
+	if idx%3 == 0 {
+		// neutral callbacks must not make key-only operations read values either
+		cfg.CB = driver.CBMask(r.Intn(64)) &^ (driver.CBAlloc | driver.CBRef)
+		ctx.Stats["c19.callback-configurations"]++
+	}
 	hc := HistCfg{Steps: r.Range(25, 70), NColls: r.Range(1, 2), NKeys: r.Range(4, 16), KeyClass: gen.KeysShort, ValClass: []gen.ValClass{gen.ValsBig, gen.ValsMixed}[r.Intn(2)],
 		Prio: gen.PrioRegime(r.Intn(int(gen.NumPrioRegimes))), Mix: mixC19, MaxSnaps: 1}
 	h := NewHist(r, cfg, hc, fmt.Sprintf("c19-%d", idx))
